@@ -37,7 +37,7 @@ def failures(sc):
     return fs
 
 
-def run_bubbles(sc, testbin, job, nshard, timeout=1800):
+def run_bubbles(sc, testbin, job, nshard, timeout=1800, gomaxprocs=2):
     outdir = os.path.join(sc.dir, "bubble")
     os.makedirs(outdir, exist_ok=True)
 
@@ -46,7 +46,7 @@ def run_bubbles(sc, testbin, job, nshard, timeout=1800):
         jf = os.path.join(outdir, "job-%d-%d.json" % (os.getpid(), i))
         json.dump(j, open(jf, "w"))
         env = dict(vlib.ENV)
-        env.update({"SIM_JOB": jf, "GODEBUG": "asynctimerchan=0", "GOMAXPROCS": "2"})
+        env.update({"SIM_JOB": jf, "GODEBUG": "asynctimerchan=0", "GOMAXPROCS": str(gomaxprocs)})
         try:
             p = subprocess.run([testbin, "-test.run", "TestBubble", "-test.timeout", "0"], env=env, capture_output=True, text=True, timeout=timeout)
         except subprocess.TimeoutExpired:
